@@ -143,23 +143,30 @@ class PowerCut(object):
     """hook: before every state-changing command ask a fresh symbolic Boolean
     'is power cut now?' (lazy fork: n+1 cut points for n writes)"""
 
-    def __init__(self, sx, tag=""):
+    def __init__(self, sx, tag="", outage=0):
         self.sx = sx
         self.k = 0
         self.cut_at = None
         self.tag = tag
+        # outage > 0: the tag does not leave for good, it misses exactly this
+        # many exchanges (all attempts of one command) and then answers again
+        self.outage = outage
 
     def __call__(self, sim, cmd):
-        if not sim.is_write(cmd):
+        if not sim.is_write(cmd) or self.cut_at is not None:
             return
         if self.sx.truth(self.sx.flag("cut%s_before_write_%d" % (self.tag, self.k))):
             self.cut_at = self.k
+            if self.outage:
+                sim.outage_left = self.outage - 1
+                self.k += 1
+                raise nfc.clf.TimeoutError("out of the field for a moment")
             sim.gone = True
             raise nfc.clf.TimeoutError("power cut")
         self.k += 1
 
 
-def cutflow(sx, world, n, retry=False):
+def cutflow(sx, world, n, retry=False, outage=0):
     """C02: a write interrupted before its k-th state-changing command; then a
     fresh reader.  retry: the tag comes back into the field and the
     application repeats the write through the SAME tag object (what an
@@ -176,7 +183,7 @@ def cutflow(sx, world, n, retry=False):
                       getattr(world, 'concrete_msg', False))
     for l in world.geometry(n):
         sx.reach(l)
-    cut = PowerCut(sx)
+    cut = PowerCut(sx, outage=outage)
     world.sim.hook = cut
     try:
         ndef.octets = msg
@@ -187,7 +194,7 @@ def cutflow(sx, world, n, retry=False):
         pass
     if cut.cut_at is None:
         sx.check(False, "tag-command-error-without-fault:" + kind)
-    sx.reach("cut")
+    sx.reach("outage" if outage else "cut")
     if cut.cut_at == 0:
         sx.reach("cut_before_first_write")
     # tag back in the field
